@@ -112,6 +112,36 @@ def HStmt.toksL (h : Hdr) (o : Opts) : List HStmt → List Tok
   | s :: r => HStmt.toks h o s ++ HStmt.toksL h o r
 end
 
+/-- the header fields an expression / statement list mentions -/
+def HExpr.fields : HExpr → List String
+  | .fld n => [n]
+  | .bin _ a b => a.fields ++ b.fields
+  | .cond c a b => c.fields ++ a.fields ++ b.fields
+  | _ => []
+def HFmt.fields : HFmt → List String
+  | .lit _ => []
+  | .cond c a b => c.fields ++ a.fields ++ b.fields
+mutual
+def HStmt.fields : HStmt → List String
+  | .printf f args => f.fields ++ args.flatMap HExpr.fields
+  | .forOpts _ => []
+  | .ite c t e => c.fields ++ HStmt.fieldsL t ++ HStmt.fieldsL e
+def HStmt.fieldsL : List HStmt → List String
+  | [] => []
+  | s :: r => HStmt.fields s ++ HStmt.fieldsL r
+end
+/-- names `Hdr.field` knows (so that its `| _ => 0` default is never what a theorem rests on); the three non-integer
+    arguments (`prob_name`, `ampl_vbtol`, the comment suffix `s`) are consumed by `%s` / `%.17g` and never evaluated -/
+def knownFields : List String :=
+  ["num_ampl_options", "num_vars", "num_algebraic_cons", "num_objs", "num_ranges", "num_eqns", "num_logical_cons", "num_rand_vars",
+   "num_rand_common_exprs", "num_rand_cons", "num_rand_objs", "num_rand_calls", "num_stages", "num_nl_cons", "num_nl_objs",
+   "num_compl_conds", "num_nl_compl_conds", "num_compl_dbl_ineqs", "num_compl_vars_with_nz_lb", "num_nl_net_cons",
+   "num_linear_net_cons", "num_nl_vars_in_cons", "num_nl_vars_in_objs", "num_nl_vars_in_both", "num_linear_net_vars", "num_funcs",
+   "arith_kind", "flags", "num_linear_binary_vars", "num_linear_integer_vars", "num_nl_integer_vars_in_both",
+   "num_nl_integer_vars_in_cons", "num_nl_integer_vars_in_objs", "num_con_nonzeros", "num_obj_nonzeros", "max_con_name_len",
+   "max_var_name_len", "num_common_exprs_in_both", "num_common_exprs_in_cons", "num_common_exprs_in_objs",
+   "num_common_exprs_in_single_cons", "num_common_exprs_in_single_objs", "prob_name", "ampl_vbtol", "s"]
+
 /-- forget the text of comments -/
 def noCmtText : List Tok → List Tok
   | [] => []
